@@ -982,6 +982,14 @@ func (w *Writer) needsParens(child ir.ExpressionHandle) bool {
 		// ArrayLength expands to "1 + ..." which contains a binary operator.
 		// Matches Rust naga: ArrayLength uses is_scoped wrapping.
 		return true
+	case ir.ExprSelect:
+		// A scalar select is printed as `c ? a : b`, which binds weaker than
+		// every binary operator: `x + c ? a : b` would parse as `(x + c) ? a : b`.
+		condType := w.getExpressionType(k.Condition)
+		if vec, ok := condType.(ir.VectorType); ok && vec.Scalar.Kind == ir.ScalarBool {
+			return false // printed as a metal::select(...) call
+		}
+		return true
 	default:
 		return false
 	}
